@@ -23,6 +23,8 @@ pub struct Block {
     pub expect: Vec<u8>,
     /// obtained through the allocator interface (zero-size blocks may sit at a chunk end)
     pub raw_api: bool,
+    /// the harness only holds a read-only pointer (a `&CStr`): never written, reallocated or freed by it
+    pub ro: bool,
 }
 
 impl Block {
@@ -80,7 +82,7 @@ impl Shadow {
         let expect = pattern(id.wrapping_mul(7919).wrapping_add(len as u32), len);
         unsafe { std::ptr::copy_nonoverlapping(expect.as_ptr(), ptr.as_ptr(), len) };
         let birth = self.tick();
-        self.blocks.push(Block { id, ptr, len, layout, depth, birth, via, expect, raw_api });
+        self.blocks.push(Block { id, ptr, len, layout, depth, birth, via, expect, raw_api, ro: false });
         if self.blocks.len() > self.max_blocks {
             // forgetting a block is always legal (it simply stays allocated); drop the oldest
             self.blocks.remove(0);
@@ -95,7 +97,7 @@ impl Shadow {
         self.next_id += 1;
         let birth = self.tick();
         let len = expect.len();
-        self.blocks.push(Block { id, ptr, len, layout, depth, birth, via, expect, raw_api: false });
+        self.blocks.push(Block { id, ptr, len, layout, depth, birth, via, expect, raw_api: false, ro: via.contains("cstr") });
         if self.blocks.len() > self.max_blocks {
             self.blocks.remove(0);
             self.forgotten += 1;
